@@ -82,7 +82,8 @@ PROPERTY Monotone
 
 # ---- tolerances (DESIGN 5.1) ------------------------------------------------------------------------------
 # evaluator: one 64-bit LU solve of a system with <= 12 unknowns whose matrix I - g*T has condition number
-# <= (1+g)/(1-g) <= 19 and entries that are small dyadics / thirds / tenths: error ~1e-14 -> 1e-9 relative.
+# <= (1+g)/(1-g) <= 19 (<= 4e5 in the near-one-discount family, g <= 1 - 1e-5) and entries that are small dyadics /
+# thirds / tenths: error ~1e-14 (~1e-10) -> 1e-9 relative.
 TOL_V = 1e-9
 # controller object: the CONDITIONAL action distribution P(a | history) and the node posterior are chains of <= 4
 # products / sums of non-negative terms followed by one normalisation (no cancellation), so their RELATIVE error is
@@ -258,7 +259,7 @@ def make_case(rng, tier, want):
                explicit_list=rng.random() < 0.5, dist=rng.choice(DISTS), odist=rng.choice(DISTS),
                arr=rng.choice(["torch", "numpy"]), eta3=(not by_action) and rng.random() < 0.7,
                with_init=rng.random() < 0.8,
-               absrep=rng.choice(ABSREPS))
+               absrep=rng.choice(ABSREPS), declare_lists=rng.random() < 0.3)
     closed = gen.ghost_closed(m)
     if not rep["explicit_list"] and not closed and rng.random() < 0.8:
         rep["explicit_list"] = True
@@ -371,7 +372,7 @@ def make_tiny_case(rng, tier):
     rep = dict(labels=rng.choice(SLABELS), alabels=rng.choice(SLABELS), olabels=rng.choice(OLABELS),
                explicit_list=rng.random() < 0.5, dist=rng.choice(DISTS), odist=rng.choice(DISTS),
                arr=rng.choice(["torch", "numpy"]), eta3=False, with_init=True,
-               absrep=rng.choice(ABSREPS))
+               absrep=rng.choice(ABSREPS), declare_lists=rng.random() < 0.3)
     listed = pb.listed_states(m, rep["explicit_list"])
     m["lst"] = [1 if s in listed else 0 for s in range(m["N"])]
     return {"m": m, "rep": rep}
@@ -384,6 +385,92 @@ def make_tiny_cases(rng, n, tier):
         if c is not None:
             out.append(c)
     return out
+
+
+CFG_NEAR = """INIT Init
+NEXT Next
+CHECK_DEADLOCK FALSE
+INVARIANT Emit
+INVARIANT ValueEquationHoldsForEveryDiscount
+INVARIANT OnlyListedRunningStates
+INVARIANT InstancesWellFormed
+"""
+NEAR_INVS = ["ValueEquationHoldsForEveryDiscount", "OnlyListedRunningStates", "InstancesWellFormed"]
+# discount = 1 - d for the symbolic d of spec/C09_NearOne.tla
+NEAR_DELTAS = [F(1, 20000), F(1, 100000), F(1, 4)]
+
+
+def make_near_case(rng):
+    """Small long-lived POMDP x controller (<= 4 unknowns, denominators 1-2, absorbing states without outgoing
+    dynamics): every running state keeps mass on itself and is paid with one sign per (state, action), so the value
+    depends visibly on how close the discount is to 1."""
+    NN, n_na = rng.choice([(1, 1), (1, 2), (2, 1), (2, 2), (2, 2)])
+    n_abs = rng.choice([0, 1, 1])
+    if n_na + n_abs < 2:
+        n_abs = 1
+    PD, OD, QD, ED = rng.choice([(2, 2, 2, 2), (2, 1, 2, 2), (2, 2, 1, 2), (2, 2, 2, 1)])
+    m = pb.rand_pomdp(rng, n_na=n_na, n_abs=n_abs, K=rng.choice([1, 2, 2]), NO=rng.choice([1, 2, 2]), PD=PD, OD=OD,
+                      GN=1, GD=2, ghost=False, ID=rng.choice([2, 4]), obs_kind="random", init_on_abs=0.1, sparse=0.3)
+    for s_ in range(m["N"]):
+        if m["abs"][s_]:
+            continue
+        for a_ in range(m["K"]):
+            row = m["P"][s_][a_]
+            if row[s_] == 0:
+                src = next(t for t in range(m["N"]) if row[t] > 0)
+                row[src] -= 1
+                row[s_] += 1
+            sg = rng.choice([-1, 1])
+            for t_ in range(m["N"]):
+                m["R"][s_][a_][t_] = sg * rng.choice([1, 2])
+    m.update(rand_controller(rng, m["K"], m["NO"], NN, QD, ED, rng.choice([2, 4]), by_action=True))
+    rep = dict(labels=rng.choice(SLABELS), alabels=rng.choice(SLABELS), olabels=rng.choice(OLABELS),
+               explicit_list=rng.random() < 0.5, dist=rng.choice(DISTS), odist=rng.choice(DISTS),
+               arr="torch", eta3=False, with_init=rng.random() < 0.8,
+               absrep=rng.choice(ABSREPS), declare_lists=rng.random() < 0.3)
+    listed = pb.listed_states(m, rep["explicit_list"])
+    m.update(lst=[1 if s in listed else 0 for s in range(m["N"])], open=0, full=0, D=1, machs=["near"])
+    return {"m": m, "rep": rep}
+
+
+def judge_near_cases(ctx, cases, only_delta=None):
+    """Pipeline A for discounts close to 1: TLC solves the evaluation equations symbolically in d = 1 - discount
+    (C09_NearOne); per concrete d the exact tables are the emitted polynomials evaluated with Fractions, and the
+    real evaluator is called on a POMDP with that discount."""
+    res = run_tlc(ctx.workdir / "near", "C09_NearOne", CFG_NEAR, files={"batch.json": [c["m"] for c in cases]},
+                  env={"BATCH_FILE": "batch.json"}, coverage=(ctx.tier == "thorough"))
+    ctx.add_tlc(res, "exact value tables as rational functions of d = 1 - discount (Cramer on polynomials)")
+    bad = [v for v in res.violated if v in NEAR_INVS]
+    if bad:
+        raise TLCFailure(f"design-level invariant violated in C09_NearOne: {sorted(set(bad))}\n"
+                         + (res.traces[0][:2000] if res.traces else ""))
+    per = {r["iid"]: r["rec"] for r in res.records}
+    for i, c in enumerate(cases, start=1):
+        rec = per.get(i)
+        if rec is None:
+            raise TLCFailure(f"no near-one record for case {i}")
+        m = c["m"]
+        for d in NEAR_DELTAS:
+            if only_delta is not None and str(d) != only_delta:
+                continue
+            g = 1 - d
+            md = dict(m, GN=g.numerator, GD=g.denominator)
+            det = peval(rec["det"], d)
+            if det == 0:
+                raise TLCFailure(f"near-one case {i}: determinant vanishes at d={d}")
+            V = [[F(0)] * m["N"] for _ in range(m["NN"])]
+            for (n, s), num in zip(rec["pairs"], rec["num"]):
+                V[n - 1][s - 1] = peval(num, d) / det
+            if V != py_value(md, True):
+                raise TLCFailure(f"near-one case {i}: TLA+ value table differs from Fractions at d={d}")
+            ctx.count("oracle_crosschecks_near_one")
+            sv = [sum(F(m["iota"][n], m["ND"]) * V[n][s] for n in range(m["NN"])) for s in range(m["N"])]
+            ev = sum(F(m["p0"][s], m["ID"]) * sv[s] for s in range(m["N"]))
+            pair = lambda x: [x.numerator, x.denominator]          # noqa: E731
+            recd = {"v": [[pair(x) for x in r] for r in V], "sv": [pair(x) for x in sv], "ev": pair(ev), "vg": [],
+                    "ghostmatters": False}
+            judge_value(ctx, i, {"m": md, "rep": c["rep"], "near": str(d)}, recd)
+    return res
 
 
 # ==============================================================================================================
@@ -535,7 +622,10 @@ class World:
         mb = case.get("m_build", self.m)
         rng = random.Random(digest([self.m, self.rep]))
         keys = ("labels", "alabels", "olabels", "explicit_list", "dist", "odist")
-        self.B = B = build_pomdp(mb, rng=rng, **{k: self.rep[k] for k in keys})
+        # declare_lists: the model class DECLARES observation_list / action_list (as msdm.domains.LoadUnload does) in an
+        # order that is not the sorted one; every index of the matrices / the controller is tied to those lists
+        self.B = B = build_pomdp(mb, rng=rng, declare_lists=bool(self.rep.get("declare_lists")),
+                                 **{k: self.rep[k] for k in keys})
         B.m = self.m
         self.p = p = B.pomdp
         # what is_absorbing returns: a Python bool, a numpy.bool_ (flags looked up in an array, as models built by
@@ -565,7 +655,10 @@ class World:
         except Exception as e:                                   # noqa: BLE001
             return e
         known = [lab for lab in self.ol if lab in self.B.olabel]
-        if len(known) != len(self.ol) or {self.B.oidx(lab) for lab in self.ol} != set(self.B.olisted):
+        got = {self.B.oidx(lab) for lab in known}
+        declared = bool(self.rep.get("declare_lists"))
+        if len(known) != len(self.ol) or len(got) != len(self.ol) or not (
+                got >= set(self.B.olisted) if declared else got == set(self.B.olisted)):
             return RuntimeError("observation_list differs from the observations of positive probability")
         self.opos = [self.B.oidx(lab) for lab in self.ol]        # msdm observation position -> abstract
         return None
@@ -1068,12 +1161,28 @@ def record_episodes(ctx, cases, rng, per_case, tamper=None, fixed=None):
                 if given:
                     cands = W.listed if rng.random() < 0.3 else [s for s in W.listed if m["p0"][s] > 0]
                     s0 = rng.choice(cands)
-            cfg = {"maxsteps": ms, "given": int(given), "s0": s0, "seed": seed}
+            # run_on(..., initial_agentstate=w): "running the controller from a (node, state) pair" / from any node
+            # distribution; agw = integer node weights (None: the controller's own initial distribution)
+            if fixed is not None:
+                agw = fixed.get("agw")
+            elif rng.random() < 0.45:
+                agw = [0] * m["NN"]
+                agw[rng.randrange(m["NN"])] = 1
+                if m["NN"] >= 2 and rng.random() < 0.3:
+                    agw[rng.randrange(m["NN"])] += rng.choice([1, 3])
+            else:
+                agw = None
+            if agw is not None and sum(agw) * (m["QD"] * m["ED"]) ** (ms + 1) * SA * 2 >= LIM:
+                agw = None
+            cfg = {"maxsteps": ms, "given": int(given), "s0": s0, "seed": seed, "agw": agw}
             ctx.evaluations += 1
             random.seed(seed)        # run_on draws the initial state from the global generator when none is given
             try:
+                kw = {}
+                if agw is not None:
+                    kw["initial_agentstate"] = as_kind(np.array(agw, dtype=float) / sum(agw), rep["arr"])
                 traj = c.run_on(W.p, initial_state=None if s0 is None else B.slabel[s0], max_steps=ms,
-                                rng=random.Random(seed))
+                                rng=random.Random(seed), **kw)
                 if tamper is not None:
                     traj = tamper(traj)
                 steps = []
@@ -1088,7 +1197,7 @@ def record_episodes(ctx, cases, rng, per_case, tamper=None, fixed=None):
                 last = traj[-1]
                 if last.action is not None:
                     raise ValueError("closing record carries an action")
-                ep = {"iid": iid, "s0": B.sidx(traj[0].state) + 1, "given": int(given), "maxsteps": ms,
+                ep = {"iid": iid, "agw": agw or [], "s0": B.sidx(traj[0].state) + 1, "given": int(given), "maxsteps": ms,
                       "ag0": quant_dist(traj[0].agentstate, SA), "steps": steps,
                       "last": {"s": B.sidx(last.state) + 1, "agq": quant_dist(last.agentstate, SA)}}
                 if given and ep["s0"] != s0 + 1:
@@ -1183,7 +1292,7 @@ def make_learner_case(rng, ghost_p=0.2):
     rep = dict(labels=rng.choice(SLABELS), alabels=rng.choice(SLABELS), olabels=rng.choice(OLABELS),
                explicit_list=True if not gen.ghost_closed(m) else rng.random() < 0.5,
                dist=rng.choice(DISTS), odist=rng.choice(DISTS), arr="numpy", eta3=False, with_init=True,
-               absrep=rng.choice(ABSREPS))
+               absrep=rng.choice(ABSREPS), declare_lists=rng.random() < 0.3)
     m.update(NN=1, QD=1, psi=[[1] + [0] * (m["K"] - 1)], ED=1, eta=[[[[1]] * m["NO"]] * m["K"]], ND=1, iota=[1],
              D=1, full=0, open=0, machs=[])
     listed = pb.listed_states(m, rep["explicit_list"])
@@ -1394,6 +1503,7 @@ def run(ctx):
     chunk = 200 if quick else 250
     for k in range(0, len(cases), chunk):
         judge_fsc_cases(ctx, cases[k:k + chunk])
+    judge_near_cases(ctx, [make_near_case(rng) for _ in range(60 if quick else 250)])
     tiny = make_tiny_cases(rng, 60 if quick else 250, ctx.tier)
     for k in range(0, len(tiny), 125):
         judge_tiny_cases(ctx, tiny[k:k + 125])
@@ -1410,7 +1520,10 @@ def run(ctx):
 def replay(ctx, case):
     kind = case["kind"]
     c = case["case"]
-    if kind in ("hist", "value"):
+    if kind == "value" and "near" in c:
+        m0 = dict(c["m"], GN=1, GD=2, machs=["near"])
+        judge_near_cases(ctx, [{"m": m0, "rep": c["rep"]}], only_delta=c["near"])
+    elif kind in ("hist", "value"):
         judge_fsc_cases(ctx, [c], xcheck_every=1, only=kind)
     elif kind == "tiny":
         judge_tiny_cases(ctx, [c], only_eps=(case.get("detail") or {}).get("eps"))
